@@ -8,6 +8,8 @@ mod standalone_read_handle;
 
 pub use standalone::StandaloneEngine;
 pub(crate) use standalone_read_handle::StandaloneReadHandle;
+#[cfg(feature = "verif-hooks")]
+pub(crate) use embedded_read_handle::EmbeddedReadHandle;
 
 /// Embedded engine generic over any `(SE, SM)` pair.
 pub type EmbeddedEngine<SE, SM> = embedded::EmbeddedEngine<crate::node::RaftTypeConfig<SE, SM>>;
